@@ -106,3 +106,7 @@ func HarnessC04CancelOther() {
 		vrt.Assert(!b.closed, "cancelling one subscription leaves the other open")
 	})
 }
+
+func HarnessC04ThreeSubs()       { c04Deliver(Config{}, 1, 3, 1) }
+func HarnessC04PersistentFull()  { c04Deliver(Config{Persistent: true, OutputChannelBuffer: 1}, 2, 2, 1) }
+func HarnessC04ThreeMsgs()       { c04Deliver(Config{}, 3, 1, 1) }
